@@ -1,4 +1,6 @@
 import Orca.Lemmas.Iter
+import Orca.Gen.ApiOutline
+import Orca.Model.ApiOutlineSpec
 import Orca.Props.C25
 /-!
 # C26 — component iteration matches module-level iteration
@@ -61,3 +63,11 @@ example : (CompIt.new [[], [(3, 1)], [(0, 2)]] [[], [3], []]).trace 3
 example : (CompIt.new [] []).trace 3 = [] := by decide
 
 end Orca.Iter
+
+/-- **The tie to the source (regenerated on every run).** The control-and-call skeletons of the functions this property rests on:
+    `ComponentSubIterator::next` / `next_module` are what M7's component half was transcribed from. A step moved, an early exit, guard, call or assignment added or removed breaks this obligation; renaming, comments and
+    formatting do not. -/
+theorem c26_subiterator_code_reviewed :
+    Orca.Gen.ApiOutline.component_subiterator_next = Orca.ApiOutlineSpec.component_subiterator_next
+    ∧ Orca.Gen.ApiOutline.component_subiterator_next_module = Orca.ApiOutlineSpec.component_subiterator_next_module :=
+  ⟨rfl, rfl⟩
